@@ -229,6 +229,24 @@ theorem shortcut_true_on_stale_last :
     s.disk.root = 1 ∧ (s.next env (.cstart 1 7 7)).2 = .commit (.ok true) ∧ (s.next env (.cstart 1 7 7)).1.disk.root = 1 := by
   decide
 
+/-! ### conjoin is a pure rewrite of the table specs -/
+
+/-- `conjoin_never_moves_root`: landing a conjoin (`conjoinOperation.updateManifest`, including its retry on a lost
+optimistic lock against a manifest somebody else has moved on) never changes the persisted root: the root it writes —
+and hashes into the new lock — is the root of the manifest whose lock it compare-and-swaps against. -/
+theorem conjoin_never_moves_root (env : Env) (s : Sys) (hi : Inv s) (i : Nat) :
+    (s.next env (.conjoin i)).1.disk.root = s.disk.root :=
+  (next_facts env s hi (.conjoin i)).noack (ackOf_none_of_not_cresume _ _ _ (by intro j h; cases h))
+
+-- a handle with a stale view (root 1) conjoins after another handle has committed root 3: the retry lands on the
+-- fresh manifest and keeps root 3 (the seeded defect /verif/seeded/C02 writes root 1 back here)
+example :
+    let env : Env := { refs := fun _ => [], size := fun _ => 10 }
+    let s := Sys.init.run env [.openH 0 10, .put 0 1, .cstart 0 1 0, .cresume 0, .put 0 2, .cstart 0 1 1, .cresume 0,
+      .openH 1 100, .put 1 3, .cstart 1 3 1, .cresume 1]
+    s.disk.root = 3 ∧ ((s.hs 0).upstream.root = 1) ∧ (s.next env (.conjoin 0)).2 = .unit ∧
+    (s.next env (.conjoin 0)).1.disk.root = 3 ∧ (s.next env (.conjoin 0)).1.disk.specs.length = 2 := by decide
+
 /-! ### reopen / rebase see the acknowledged root or a later one -/
 
 theorem rebase_fresh_root (d : Disk) (h : Handle) (hd : ∀ m, d.manifest = some m → m.lock ≠ none)
